@@ -171,8 +171,12 @@ func (j *judge) run(hist []string) []failure {
 				if !j.bogus[num(2)] {
 					want = j.ref.Line(f)
 				}
-				if got == "ok" && want != "ok" {
-					j.bogus[id] = true
+				if got == "ok" {
+					if want != "ok" {
+						j.bogus[id] = true
+					} else {
+						delete(j.bogus, id)
+					}
 				}
 			}
 			continue
